@@ -225,6 +225,18 @@ class ClassRef(PyVal):
         self.name = name
 
 
+class PyDict(PyVal):
+    """dict literal with constant string keys (operator tables of the interpreter)"""
+    def __init__(self, items):
+        self.items = dict(items)
+
+
+class PyProperty(PyVal):
+    """property(fget[, fset]) object built in the code under verification"""
+    def __init__(self, fget, fset=None):
+        self.fget, self.fset = fget, fset
+
+
 class SpecFn(PyVal):
     def __init__(self, name):
         self.name = name
